@@ -12,7 +12,7 @@ pub fn info() -> PropInfo {
     PropInfo {
         id: "C09",
         level: "exploration",
-        rule: "proptest: library-issued credentials x exp in {absent, null, string, negative, now-10y..now-120s (int/float)} (must reject) or {now+1h..2100} (must accept) x nbf in {absent, past} (accept) or {now+120s..now+10y} (reject), nbf kept visible (NoSD / Custom not listing it) x format x key binding x selection; instants are computed from the wall clock at execution, never within 120 s of a boundary; oracle: accept/reject table, accepted => claims == view. Every case is non-trivial (each has a defined expectation). Distinct: hash of the case JSON.",
+        rule: "proptest: library-issued credentials x exp in {absent, null, string, negative, now-10y..now-120s (int/float)} (must reject) or {now+1h..2100} (must accept) x nbf in {absent, past} (accept) or {now+120s..now+10y} (reject), iat untouched / equal to nbf / equal to exp / absent / far future (no effect on the expectation), nbf kept visible (NoSD / Custom not listing it) x format x key binding x selection; instants are computed from the wall clock at execution, never within 120 s of a boundary; oracle: accept/reject table, accepted => claims == view. Every case is non-trivial (each has a defined expectation). Distinct: hash of the case JSON.",
         assumptions: &["|harness clock - verifier clock| < 60 s within one case (same process)", "void when issuance / presentation fails"],
         needs_mock: false,
         rounds: 4,
@@ -69,7 +69,15 @@ pub fn strategy() -> BoxedStrategy<Case> {
             selection.remove("exp");
             selection.remove("nbf");
             let kb = if issue.holder.is_some() { kb.map(|(aud, nonce)| KbArgs { default_alg: nonce.chars().count() % 2 == 1, aud, nonce, key: issue.holder }) } else { None };
-            C09Case { issue, exp, nbf, selection, kb }
+            let iat_mode = match ch.get(1).map(|c| c % 16).unwrap_or(0) {
+                0 | 1 | 2 => 1,
+                3 => 2,
+                4 => 3,
+                5 => 4,
+                6 => 5,
+                _ => 0,
+            };
+            C09Case { issue, exp, nbf, selection, kb, iat_mode }
         })
         .boxed()
 }
